@@ -10,6 +10,8 @@
 //	              checks/c13.py) and prints the script; markers are written to fd 2 with write(2)
 //	              so that the system-call trace can be cut into per-operation segments.
 //	-mode=race    two concurrent uploads into the same new directory (also run under strace).
+//	-mode=wfault  uploads while write(2) on the temporary file fails partway (RLIMIT_FSIZE, a full
+//	              tmpfs); monitors only, always a process of its own: see wfault.go.
 package main
 
 import (
@@ -1128,6 +1130,12 @@ func main() {
 		return
 	case "replay":
 		replayFile(*file)
+		if hasWfaultLines(*file) {
+			wfault(*seed, 0, *file)
+		}
+		return
+	case "wfault":
+		wfault(*seed, *n, *file)
 		return
 	}
 	r := rand.New(rand.NewSource(*seed))
